@@ -225,7 +225,10 @@ static void thread_case(vh::Rng& r, int nthreads, int iters) {
    Pt sp; do { sp = gen_point(r); sp.mssm = true; } while (false);
    MSSMNoFV_onshell shared_m; bool have_m = false; try { shared_m = gen::make_mssm(sp.mp); have_m = !shared_m.get_problems().have_problem(); } catch (const Error&) {}
    Pt st = gen_point(r); st.mssm = false; thdm::Config cfg; cfg.running_couplings = st.running; THDM* shared_t = nullptr; try { shared_t = new THDM(st.tb, sm_of(st), cfg); } catch (const Error&) {}
-   Vec sh_m_seq, sh_t_seq; if (have_m) for (auto& f : MFS) sh_m_seq.push_back(f.f(shared_m)); if (shared_t) for (auto& f : TFS) sh_t_seq.push_back(f.f(*shared_t));
+   // (a function may refuse the shared point - the non-resummed variants recompute the spectrum and can meet a tachyon: such a point is not used as shared model)
+   Vec sh_m_seq, sh_t_seq;
+   if (have_m) { try { for (auto& f : MFS) sh_m_seq.push_back(f.f(shared_m)); } catch (const Error&) { have_m = false; sh_m_seq.clear(); out->count("shared MSSM model refused by a function (not used)"); } }
+   if (shared_t) { try { for (auto& f : TFS) sh_t_seq.push_back(f.f(*shared_t)); } catch (const Error&) { delete shared_t; shared_t = nullptr; sh_t_seq.clear(); out->count("shared THDM model refused by a function (not used)"); } }
    const MSSMNoFV_onshell& csm = shared_m;
    std::vector<Vec> sh_m_par(nthreads), sh_t_par(nthreads);
    std::vector<std::vector<long>> order(nthreads);
